@@ -189,12 +189,40 @@ def run_family(name, gen_cmd, real_bin, model_bin, key, extra_model_args="", sec
     os.makedirs(d, exist_ok=True)
     rc, out, _ = sh(gen_cmd(d), timeout=1200)
     if rc: raise Broken(f"case generation failed for {name}: {out[-1500:]}")
-    rc1, out1, t1 = sh(f"timeout 600 {real_bin} {d}/cases > {d}/real.out 2> {d}/real.err", timeout=700)
-    rc2, out2, t2 = sh(f"{model_bin} {d}/cases {extra_model_args} > {d}/model.out 2> {d}/model.err", timeout=3000)
-    if second_model_on_real:
-        rc3, out3, t3 = sh(f"{model_bin} {d}/cases --tables {d}/real.out > {d}/model_rt.out 2> {d}/model_rt.err", timeout=3000)
-        if rc3: raise Broken(f"model driver (on real tables) failed on {name}: " + open(d + "/model_rt.err").read()[-1500:])
-    json.dump({"real_rc": rc1, "model_rc": rc2, "real_s": t1, "model_s": t2}, open(d + "/status.json", "w"))
+    # the case file is cut into shards (whole CASE blocks) that run in parallel; outputs are concatenated in order.
+    # A shard of the real harness that does not end within 600 s is a hang (its missing blocks are reported by the checks).
+    import concurrent.futures as cf
+    blocks, cur = [], []
+    for line in open(d + "/cases", "rb"):
+        if line.startswith(b"CASE ") and cur: blocks.append(b"".join(cur)); cur = []
+        cur.append(line)
+    if cur: blocks.append(b"".join(cur))
+    nsh = max(1, min(NPROC, len(blocks) // 8))
+    per = (len(blocks) + nsh - 1) // nsh
+    shards = []
+    for i in range(nsh):
+        part = blocks[i * per:(i + 1) * per]
+        if not part: continue
+        open(f"{d}/cases.{i}", "wb").write(b"".join(part)); shards.append(i)
+    def one(i):
+        r1 = sh(f"timeout 600 {real_bin} {d}/cases.{i} > {d}/real.out.{i} 2> {d}/real.err.{i}", timeout=700)
+        r2 = sh(f"{model_bin} {d}/cases.{i} {extra_model_args} > {d}/model.out.{i} 2> {d}/model.err.{i}", timeout=3000)
+        r3 = (0, "", 0)
+        if second_model_on_real:
+            r3 = sh(f"{model_bin} {d}/cases.{i} --tables {d}/real.out.{i} > {d}/model_rt.out.{i} 2> {d}/model_rt.err.{i}", timeout=3000)
+        return r1, r2, r3
+    with cf.ThreadPoolExecutor(NPROC) as ex: results = list(ex.map(one, shards))
+    def cat(stem):
+        with open(f"{d}/{stem}", "wb") as o:
+            for i in shards:
+                pth = f"{d}/{stem}.{i}"
+                if os.path.exists(pth): o.write(open(pth, "rb").read()); os.remove(pth)
+    for stem in ["real.out", "real.err", "model.out", "model.err"] + (["model_rt.out", "model_rt.err"] if second_model_on_real else []): cat(stem)
+    for i in shards: os.remove(f"{d}/cases.{i}")
+    rc1 = max(r[0][0] for r in results); rc2 = max(r[1][0] for r in results); rc3 = max(r[2][0] for r in results)
+    t1 = max(r[0][2] for r in results); t2 = max(r[1][2] for r in results)
+    if rc3: raise Broken(f"model driver (on real tables) failed on {name}: " + open(d + "/model_rt.err").read()[-1500:])
+    json.dump({"real_rc": rc1, "model_rc": rc2, "real_s": t1, "model_s": t2, "shards": len(shards)}, open(d + "/status.json", "w"))
     if rc2: raise Broken(f"model driver failed on {name}: " + open(d + "/model.err").read()[-1500:])
     open(d + "/done", "w").write("ok")
     return d
